@@ -331,6 +331,8 @@ class SheetGen:
     def __init__(self, rng, feats, settings, max_rules=8, tag=""):
         self.rng = rng
         self.feats = set(feats)
+        if self.feats & {"var-names", "var-chain", "var-shared", "var-fallback"}:
+            self.feats.add("vars")  # (these only mean something in a stylesheet that uses custom properties at all)
         self.settings = settings
         self.max_rules = max_rules
         self.tag = tag
